@@ -63,6 +63,16 @@ def check(tier):
 
     texts = [json.loads(l)["text"] for l in open(os.path.join(C.VERIF, "corpus", "C01.jsonl"))] if os.path.exists(os.path.join(C.VERIF, "corpus", "C01.jsonl")) else []
     texts += S.exhaustive_small() if tier != "quick" else S.exhaustive_small()[::3]
+    # two different sub-expressions, each under two different operators, in both orders: a synthesised name that is shared by
+    # mistake between the two shows in the LANGUAGE (one pair alone only shows in the names)
+    wrap = {"g": "(%s)", "o": "[%s]", "s": "{%s}", "p": "{{%s}}"}
+    for o1 in "gosp":
+        for o2 in "gosp":
+            if o1 != o2:
+                texts.append('grammar g; start = %s %s "z" %s %s; aa = "a"; bb = "b";\n'
+                             % (wrap[o1] % "aa", wrap[o2] % "aa", wrap[o1] % "bb", wrap[o2] % "bb"))
+                texts.append('grammar g; start = %s %s "z" %s %s;\n'
+                             % (wrap[o1] % '"a" | "c"', wrap[o2] % '"a" | "c"', wrap[o1] % '"b"', wrap[o2] % '"b"'))
     for _ in range(120 if tier == "quick" else 4000):
         texts.append(S.gen_wellformed(rng))
     texts = [t for t in dict.fromkeys(texts) if S.printable(t)]
